@@ -6,7 +6,7 @@ from .. import inputs
 from . import geom
 
 SPEC = dict(
-    lean_modules=['SmVerif.Props.C18', 'SmVerif.Props.VecPreds'],
+    lean_modules=['SmVerif.Props.C18', 'SmVerif.Props.VecPreds', 'SmVerif.Props.TwistOps'],
     groups=['Transforms3d', 'Transforms2d', 'TransformsNd', 'Vectors', 'Twists'],
     expected_untranslatable=('trinterp_T', 'trinterp_T_nostart'),
     partial=['accessor semantics (pitch, pole, line, isprismatic/isrevolute) and the traced constructors are proved; float agreement is explored'],
@@ -76,6 +76,9 @@ def _impl(tier, seed, search):
             ok2, r = L.noraise('Revolute.exp(deg)', lambda: (S.exp(math.degrees(th), units='deg').A, S.exp(th).A), inp, 'S.exp(theta, units=deg)')
             if ok2: L.close('exp(deg)', r[0], r[1], TOL, max(1.0, geom.tmag(r[1])), inp)
             ths = [th, 0.0, -th / 2]
+            ok2, r = L.noraise('Revolute.exp(vector,deg)', lambda: S.exp([math.degrees(a_) for a_ in ths], units='deg'), inp, 'S.exp(vector theta, deg)')
+            if ok2 and hasattr(r, '__len__') and len(r) == 3:
+                for k_ in range(3): L.close('exp(vector,deg)', r[k_].A, S.exp(ths[k_]).A, TOL, max(1.0, geom.tmag(r[k_].A)), inp, sig='exp(vector,deg)')
             ok2, r = L.noraise('Revolute.exp(vector)', lambda: S.exp(ths), inp, 'S.exp(vector theta)')
             if ok2:
                 L.check('exp(vector):len', len(r) == 3, inp, 'vector theta does not give one pose per theta')
@@ -104,6 +107,17 @@ def _impl(tier, seed, search):
             k = float(g.uniform(-2, 2))
             ok2, r = L.noraise('Twist2.S*k', lambda: ((S2 * k).exp().A, S2.exp(k).A), dict(q=q2, k=k), 'Twist2: exp(S*k) vs S.exp(k)')
             if ok2: L.close('Twist2:exp(S*k)=S.exp(k)', r[0], r[1], TOL, max(1.0, geom.tmag(r[1])), dict(q=q2, k=k))
+            ths2 = [th, -th / 2, 0.3]
+            for un, conv in (('rad', lambda a_: a_), ('deg', math.degrees)):
+                ok2, r = L.noraise(f'Twist2.exp(vector,{un})', lambda: S2.exp([conv(a_) for a_ in ths2], units=un), dict(q=q2, theta=ths2, units=un), 'Twist2.exp(vector theta)')
+                if ok2:
+                    L.check('Twist2:exp(vector):len', hasattr(r, '__len__') and len(r) == 3, dict(q=q2, units=un), 'vector theta does not give one pose per theta')
+                    if hasattr(r, '__len__') and len(r) == 3:
+                        for k_ in range(3):
+                            L.close(f'Twist2:exp(vector,{un})', r[k_].A, S2.exp(ths2[k_]).A, TOL, max(1.0, geom.tmag(r[k_].A)), dict(q=q2, theta=ths2, units=un),
+                                    what='Twist2.exp of a vector of angles differs from exp of each angle', sig=f'Twist2:exp(vector,{un})')
+                ok2, r = L.noraise(f'Twist2.exp(scalar,{un})', lambda: (S2.exp(conv(th), units=un).A, S2.exp(th).A), dict(q=q2, theta=th, units=un), 'Twist2.exp(theta, units)')
+                if ok2: L.close(f'Twist2:exp(scalar,{un})', r[0], r[1], TOL, max(1.0, geom.tmag(r[1])), dict(q=q2, theta=th, units=un))
             ok2, r = L.noraise('Twist2.inv', lambda: (S2.inv().exp(th).A, np.linalg.inv(S2.exp(th).A)), dict(q=q2, theta=th), 'Twist2.inv()')
             if ok2: L.close('Twist2:inv', r[0], r[1], TOL, max(1.0, geom.tmag(r[1])), dict(q=q2, theta=th))
         a2 = a[:2] if np.linalg.norm(a[:2]) > 0 else np.array([1.0, 0.0])
